@@ -952,6 +952,17 @@ func (in *Interp) evalCall(x *ast.CallExpr, st *state) []res {
 				continue
 			}
 			decl := fv.decl
+			if decl == nil && recv != nil && lockMethods[fv.ifaceName] && (recv.kind == avSet || recv.kind == avMutex) {
+				// a lock method of the embedded mutex taken as a method value (`release := a.RUnlock`) or used as a
+				// method expression: the lock event happens where the value is CALLED
+				in.lockEvent(fv.ifaceName, *recv, it.st)
+				out = append(out, res{it.st, AV{}})
+				continue
+			}
+			if decl == nil && recv != nil && lockMethods[fv.ifaceName] && recv.kind == avFresh {
+				out = append(out, res{it.st, AV{}}) // the lock of a set nobody else can see yet
+				continue
+			}
 			if decl == nil && fv.ifaceName != "" && recv != nil {
 				if recv.kind == avSet {
 					decl = in.tsMethods[fv.ifaceName]
